@@ -263,6 +263,30 @@ def change_parameters(model):
             dep.parameters = pars
 
 
+def change_description(desc):
+    """the description of the model change_parameters() produces (same float operations), so that a
+    FRESH model with the current parameters can be built"""
+    import copy
+    d = copy.deepcopy(desc)
+    p0, fam = d["dims"][0]["params"], d["dims"][0]["family"]
+    if fam in ("weibull", "expweibull"):
+        p0["alpha"] = p0["alpha"] * 1.6
+    elif fam in ("lognormal", "normal"):
+        p0["mu"] = p0["mu"] + 0.47
+    elif fam == "gengamma":
+        p0["lambda_"] = p0["lambda_"] / 1.6
+    elif fam == "lognormfit":
+        p0["mu_norm"], p0["sigma_norm"] = p0["mu_norm"] * 1.6, p0["sigma_norm"] * 1.6
+    elif fam == "vonmises":
+        p0["kappa"] = p0["kappa"] * 1.6
+    for i in range(1, d["n_dim"]):
+        if d["cond"][i] is None:
+            continue
+        for p, (k, co) in d["dims"][i]["deps"].items():
+            d["dims"][i]["deps"][p] = [k, [co[0] * 1.25] + list(co[1:])]
+    return d
+
+
 def _ss_p3(x, a=0.1, b=1.489, c=0.1901):
     return a + b * x ** c
 
